@@ -105,20 +105,30 @@ theorem applyLock_qi (db : DB) (hdb : DBI db) (ht : ∀ k ∈ db.keys, KeyTight 
     exact qe.of_qk ⟨d.q, d.t⟩ (t.good hg).lv
   | update h =>
     simp only [applyLock] at t ⊢
+    have hhold : (db.enter c.key).k.hasRec h := by
+      apply hasRec_of_holder le
+      rw [enter_k]; exact hb h rfl
+    have tp := update_tight_pre db hdb ht c data h hhold (hupd h rfl)
+    refine qi_wake (tp.reply _ _ _ _) (QIG.reply ?_ _ _ _ _)
     intro hg
     have d1 := qk_procData (db.enter c.key) .lock (lockCmdOf (db.enter c.key).k c (.update h)) (frameOf (lockCmdOf (db.enter c.key).k c (.update h)) data) h
     have d2 := (qk_updateLocked _ h (lockCmdOf (db.enter c.key).k c (.update h))).trans d1
     have d3 := (qk_when _ (!has (lockCmdOf (db.enter c.key).k c (.update h)).flag Slock.Engine.F_FROM_AOF) (·.journalLock h AOF_UPDATED) (qk_journalLock _ _ _)).trans d2
-    exact qe.of_qk ⟨d3.q, d3.t⟩ (t.good hg).lv
+    exact qe.of_qk ⟨d3.q, d3.t⟩ (tp.good hg).lv
   | relock h =>
     simp only [applyLock] at t ⊢
+    have hhold : (db.enter c.key).k.hasRec h := by
+      apply hasRec_of_holder le
+      rw [enter_k]; exact hb h rfl
+    have tp := relock_tight_pre db hdb ht c data h hhold (hrel h rfl)
+    refine qi_wake ((tp.ctr _).reply _ _ _ _) (QIG.reply (QIG.ctr ?_ _) _ _ _ _)
     intro hg
     have d0 : QK (((db.enter c.key).modR h (fun r => { r with depth := r.depth + 1 })).modK incLocked) (db.enter c.key) :=
       (qk_modK _ incLocked rfl rfl).trans (qk_modR _ h _ (by intro _; rfl) (by intro _; rfl))
     have d1 := (qk_procData _ .lock c (frameOf c data) h).trans d0
     have d2 := (qk_updateLocked _ h c).trans d1
     have d3 := (qk_journalLock _ h AOF_UPDATED).trans d2
-    exact qe.of_qk ⟨d3.q, d3.t⟩ (t.good hg).lv
+    exact qe.of_qk ⟨d3.q, d3.t⟩ (tp.good hg).lv
   | grant =>
     simp only [applyLock] at t ⊢
     obtain ⟨ln, hn, _, _, _, hg⟩ := le.newLock zero_nonneg c data
@@ -267,7 +277,10 @@ theorem applyUnlock_qi (db : DB) (hdb : DBI db) (ht : ∀ k ∈ db.keys, KeyTigh
     have q3 : QI ((((db.openKey c.key).modR x (fun r => { r with timeouted := true })).dropLongT x).modK (·.settleWait)).k := qi_settleWait_cn cn2
     have q4 : QIG ((((((db.openKey c.key).modR x (fun r => { r with timeouted := true })).dropLongT x).modK (·.settleWait)).ctr
         (fun y => { y with waitCount := y.waitCount - 1 })).removeIfZero) := QIG.removeIfZero (QIG.of_qi q3)
-    exact ((q4.ctr _).reply _ _ _ _).reply _ _ _ _
+    obtain ⟨hm, hd⟩ := hc x rfl
+    have tp := cancel_tight_pre db hdb ht c x hm hd
+    exact qi_wake (((tp.ctr (fun y => { y with unLockCount := y.unLockCount + 1 })).reply _ _ _ _).reply _ _ _ _)
+      (((q4.ctr _).reply _ _ _ _).reply _ _ _ _)
   | dec h c' =>
     simp only [applyUnlock]
     have hh := hasRec_of_holder le h (hb h rfl)
